@@ -295,7 +295,7 @@ fn key_driver(_ctx: &RunCtx, stats: &mut Stats, rep: &mut Reporter) {
 pub fn property() -> Property {
     Property {
         id: "C05",
-        rule: "histories: valid start positions (19 sources) + byte paths interpreted as nested make/unmake sequences over semilegal and \
+        rule: "histories: valid start positions (20 sources) + byte paths interpreted as nested make/unmake sequences over semilegal and \
                null moves (up to ~120 steps, deeper in thorough); after every move (and, in undo_histories, after every unmake and in \
                every transient illegal position) stored hash == RawBoard::zobrist_hash() and white/black/combined/13 piece sets == sets \
                rebuilt from the squares. fresh_boards: the same invariant on boards fresh from the validation gate and the FEN parser \
